@@ -109,7 +109,17 @@ class ConstantExpressionEvaluator:
         value = self.eval_expr(expr.expr)
 
         # do some real casting:
-        if expr.typ.is_integer:
+        if isinstance(expr.typ, types.EnumType):
+            # An enumerated type converts like int
+            self.check_number(value, expr)
+            if isinstance(value, float) and not math.isfinite(value):
+                self.context.error(
+                    f"Cannot convert {value} to an enumerated type",
+                    expr.location,
+                )
+            bits = 8 * self.context.sizeof(expr.typ)
+            value = c_wrap(int(value), bits, True)
+        elif expr.typ.is_integer:
             self.check_number(value, expr)
             if isinstance(value, float) and not math.isfinite(value):
                 self.context.error(
